@@ -155,11 +155,42 @@ MdocJ(mm) == [hdr |-> mm.hdr, titles |-> mm.titles, cols |-> mm.cols,
               imgs |-> [k \in DOMAIN mm.imgs |-> [lab |-> mm.imgs[k].lab, z |-> mm.imgs[k].z, f |-> mm.imgs[k].f,
                                                   rm |-> mm.imgs[k].rm]]]
 
-Step(o, mm, dk) == /\ m' = mm
-                   /\ disk' = dk
-                   /\ op' = o
-                   /\ d' = d + 1
-                   /\ hist' = IF EmitMode = "hist" THEN Append(hist, [op |-> o, post |-> MdocJ(mm), disk |-> dk]) ELSE hist
+\* the effect of one operation on (object, file) - used by the machine below and by TiltMetaTrace.tla
+Apply(mm, dk, o) ==
+    CASE o.name = "sort"      -> [m |-> SortByTilt(mm, o.reset), disk |-> dk]
+      [] o.name = "remove"    -> [m |-> RemoveImages(mm, o.idx, o.kept_only), disk |-> dk]
+      [] o.name = "keep"      -> [m |-> KeepImages(mm, o.labels), disk |-> dk]
+      [] o.name = "reset"     -> [m |-> ResetImages(mm), disk |-> dk]
+      [] o.name = "write"     -> [m |-> mm, disk |-> WriteDoc(mm, o.removed)]
+      [] o.name = "reload"    -> [m |-> Read(dk), disk |-> dk]
+      \* module-level helpers working from file to file: mdoc.remove_images / mdoc.sort_mdoc_by_tilt_angles
+      [] o.name = "fn_remove" -> LET r == RemoveImages(Read(dk), { p - o.base : p \in o.idx }, TRUE)
+                                 IN  [m |-> r, disk |-> WriteDoc(r, FALSE)]
+      [] o.name = "fn_sort"   -> LET r == SortByTilt(Read(dk), o.reset)
+                                 IN  [m |-> r, disk |-> WriteDoc(r, FALSE)]
+
+NKept(mm) == Cardinality(Candidates(mm, TRUE))
+
+\* when an operation is inside the property's quantifier
+Enabled(mm, dk, o) ==
+    CASE o.name = "sort"      -> DistinctTilts(mm)
+      [] o.name = "remove"    -> o.idx # {} /\ \A p \in o.idx : p >= 0 /\ p < Cardinality(Candidates(mm, o.kept_only))
+      [] o.name = "keep"      -> o.labels # {} /\ o.labels \subseteq { mm.imgs[k].lab : k \in DOMAIN mm.imgs }
+      [] o.name = "reset"     -> TRUE
+      \* a file without sections cannot be read back, so at least one image must be written
+      [] o.name = "write"     -> o.removed \/ NKept(mm) >= 1
+      [] o.name = "reload"    -> TRUE
+      [] o.name = "fn_remove" -> /\ o.idx # {} /\ \A p \in o.idx : p - o.base >= 0 /\ p - o.base < Len(dk.secs)
+                                 /\ Cardinality(o.idx) < Len(dk.secs)
+      [] o.name = "fn_sort"   -> DistinctTilts(Read(dk))
+
+StepOp(o) == /\ Enabled(m, disk, o)
+             /\ LET r == Apply(m, disk, o)
+                IN  /\ m' = r.m
+                    /\ disk' = r.disk
+                    /\ op' = o
+                    /\ d' = d + 1
+                    /\ hist' = IF EmitMode = "hist" THEN Append(hist, [op |-> o, post |-> MdocJ(r.m), disk |-> r.disk]) ELSE hist
 
 Init == /\ disk \in Docs
         /\ m = Read(disk)
@@ -167,29 +198,14 @@ Init == /\ disk \in Docs
         /\ d = 0
         /\ hist = IF EmitMode = "hist" THEN << [op |-> [name |-> "read"], post |-> MdocJ(Read(disk)), disk |-> disk] >> ELSE <<>>
 
-NKept(mm) == Cardinality(Candidates(mm, TRUE))
-
-DoSort(resetZ) == /\ DistinctTilts(m)
-                  /\ Step([name |-> "sort", reset |-> resetZ], SortByTilt(m, resetZ), disk)
-DoRemove(P, keptOnly) == /\ P # {}
-                         /\ \A p \in P : p < Cardinality(Candidates(m, keptOnly))
-                         /\ Step([name |-> "remove", idx |-> P, kept_only |-> keptOnly], RemoveImages(m, P, keptOnly), disk)
-DoKeep(L) == /\ L # {} /\ L \subseteq { m.imgs[k].lab : k \in DOMAIN m.imgs }
-             /\ Step([name |-> "keep", labels |-> L], KeepImages(m, L), disk)
-DoReset == Step([name |-> "reset"], ResetImages(m), disk)
-\* write; a file without sections cannot be read back, so at least one image must be written
-DoWrite(inclRemoved) == /\ (inclRemoved \/ NKept(m) >= 1)
-                        /\ Step([name |-> "write", removed |-> inclRemoved], m, WriteDoc(m, inclRemoved))
-DoReload == Step([name |-> "reload"], Read(disk), disk)
-\* module-level helpers working from file to file: mdoc.remove_images / sort_mdoc_by_tilt_angles
-DoFnRemove(P, base) == /\ P # {}
-                       /\ \A p \in P : p < Len(disk.secs)
-                       /\ Cardinality(P) < Len(disk.secs)
-                       /\ LET r == RemoveImages(Read(disk), P, TRUE)
-                          IN  Step([name |-> "fn_remove", idx |-> { p + base : p \in P }, base |-> base], r, WriteDoc(r, FALSE))
-DoFnSort(resetZ) == /\ DistinctTilts(Read(disk))
-                    /\ LET r == SortByTilt(Read(disk), resetZ)
-                       IN  Step([name |-> "fn_sort", reset |-> resetZ], r, WriteDoc(r, FALSE))
+DoSort(resetZ) == StepOp([name |-> "sort", reset |-> resetZ])
+DoRemove(P, keptOnly) == StepOp([name |-> "remove", idx |-> P, kept_only |-> keptOnly])
+DoKeep(L) == StepOp([name |-> "keep", labels |-> L])
+DoReset == StepOp([name |-> "reset"])
+DoWrite(inclRemoved) == StepOp([name |-> "write", removed |-> inclRemoved])
+DoReload == StepOp([name |-> "reload"])
+DoFnRemove(P, base) == StepOp([name |-> "fn_remove", idx |-> { p + base : p \in P }, base |-> base])
+DoFnSort(resetZ) == StepOp([name |-> "fn_sort", reset |-> resetZ])
 
 Positions == 0..3
 Next == /\ d < MaxDepth
